@@ -71,12 +71,35 @@ Qed.
 Lemma inc_lt_asym a b : inc_lt a b = true -> inc_lt b a = false.
 Proof. unfold inc_lt. apply slt_asym. Qed.
 
+Definition inc_le (a b : resource) : bool := String.leb (rid a) (rid b).
+
+Lemma inc_le_lt a b : inc_le a b = negb (inc_lt b a).
+Proof. unfold inc_le, inc_lt. apply sle_not_lt. Qed.
+
+Lemma insert_le_sorted x l :
+  StronglySorted (fun a b => inc_lt b a = false) l ->
+  StronglySorted (fun a b => inc_lt b a = false) (insert_by inc_le x l).
+Proof.
+  induction l as [|y ys IH]; cbn; intros Hs.
+  - constructor; constructor.
+  - inversion Hs as [|? ? Hs' Hall]; subst.
+    destruct (inc_le x y) eqn:E.
+    + rewrite inc_le_lt in E. apply Bool.negb_true_iff in E.
+      constructor; [exact Hs|]. constructor; [exact E|].
+      eapply Forall_impl; [|exact Hall]. intros z Hz. cbn in Hz.
+      eapply inc_lt_ntrans; [exact Hz|exact E].
+    + rewrite inc_le_lt in E. apply Bool.negb_false_iff in E.
+      constructor; [apply IH; exact Hs'|].
+      eapply Permutation_Forall; [symmetry; apply insert_by_perm|].
+      constructor; [apply inc_lt_asym; exact E|exact Hall].
+Qed.
+
 Lemma sort_included_sorted l :
   StronglySorted (fun a b => inc_lt b a = false) (sort_included l).
 Proof.
-  unfold sort_included. fold inc_lt.
+  unfold sort_included. fold inc_le.
   induction l as [|x l IH]; cbn; [constructor|].
-  apply insert_by_sorted_on; [exact inc_lt_ntrans|exact inc_lt_asym|exact IH].
+  apply insert_le_sorted. exact IH.
 Qed.
 
 Lemma NoDup_map_inj_on {A B} (f : A -> B) l a b :
